@@ -56,6 +56,11 @@ pub enum Delete {
   Reader,
   Writer,
   ReaderParticipant,
+  /// the reader is deleted (its participant lives on); once the unmatch has been seen a second writer is created
+  /// on the topic: it has nothing to match
+  ReaderThenNewWriter,
+  /// the writer is deleted; once the unmatch has been seen a second reader is created on the topic
+  WriterThenNewReader,
 }
 
 #[derive(Serialize, Deserialize, Debug, Clone)]
@@ -68,6 +73,16 @@ pub struct Scenario {
   pub size: usize,
   pub loss: Option<(u64, u64)>,
   pub delete: Delete,
+  /// DDS Security: governance document (fixture file stem) both participants use; None: security off
+  #[serde(default)]
+  pub secure: Option<String>,
+  /// topic name (with security on it selects the topic rule: T_<metadata kind>_<data kind>)
+  #[serde(default = "default_topic")]
+  pub topic: String,
+}
+
+fn default_topic() -> String {
+  "c07_t".into()
 }
 
 const SETTLE: Duration = Duration::from_secs(4);
@@ -107,6 +122,17 @@ pub fn scenarios(tier: &str) -> Vec<Scenario> {
     size: 10,
     loss: None,
     delete: Delete::None,
+    secure: None,
+    topic: default_topic(),
+  };
+  // security on: identities, permissions and governance from the signed fixtures; the handshake, the key
+  // exchange and all protection are the real ones, over the network
+  let secure = |order: &Vec<Step>, settle: Vec<usize>, tl: bool, gov: &str, topic: &str, size: usize| {
+    let mut s = base(order, settle, tl);
+    s.secure = Some(gov.into());
+    s.topic = topic.into();
+    s.size = size;
+    s
   };
   if tier == "thorough" {
     for o in &os {
@@ -140,10 +166,21 @@ pub fn scenarios(tier: &str) -> Vec<Scenario> {
         s.loss = Some((m, j));
         v.push(s);
       }
-      for d in [Delete::Reader, Delete::Writer, Delete::ReaderParticipant] {
+      for d in [Delete::Reader, Delete::Writer, Delete::ReaderParticipant, Delete::ReaderThenNewWriter, Delete::WriterThenNewReader] {
         let mut s = base(o, vec![late], true);
         s.delete = d;
         v.push(s);
+      }
+    }
+    // security enabled: every RTPS protection kind x topics of every metadata x data protection kind
+    // x payload sizes (not a multiple of 4; fragmented) on three orders that differ in who comes last
+    let sec_orders = [&os[0], &os[os.len() / 2], &os[os.len() - 1]];
+    for (gi, gov) in ["governance_rtps_N", "governance_rtps_S", "governance_rtps_E", "governance_rtps_SO", "governance_rtps_EO", "governance_max"].iter().enumerate() {
+      for (ti, topic) in ["T_N_N", "T_N_S", "T_N_E", "T_S_N", "T_S_E", "T_E_S", "T_E_E", "T_SO_N", "T_SO_E", "T_EO_S", "T_EO_E"].iter().enumerate() {
+        let o = sec_orders[(gi + ti) % 3];
+        let late = o.iter().position(|s| *s == Step::W).unwrap().max(o.iter().position(|s| *s == Step::R).unwrap());
+        let size = [10usize, 13, 1501][(gi + ti) % 3];
+        v.push(secure(o, if (gi + ti) % 2 == 0 { vec![late] } else { vec![] }, (gi + ti) % 2 == 0, gov, topic, size));
       }
     }
   } else {
@@ -155,7 +192,7 @@ pub fn scenarios(tier: &str) -> Vec<Scenario> {
     }
     let o = &os[0];
     let late = o.iter().position(|s| *s == Step::W).unwrap().max(o.iter().position(|s| *s == Step::R).unwrap());
-    for d in [Delete::Reader, Delete::Writer, Delete::ReaderParticipant] {
+    for d in [Delete::Reader, Delete::Writer, Delete::ReaderParticipant, Delete::ReaderThenNewWriter, Delete::WriterThenNewReader] {
       let mut s = base(o, vec![late], true);
       s.delete = d;
       v.push(s);
@@ -169,6 +206,12 @@ pub fn scenarios(tier: &str) -> Vec<Scenario> {
     let mut s = base(&os[os.len() / 2], vec![], true);
     s.loss = Some((3, 1));
     v.push(s);
+    // security enabled
+    let late0 = late;
+    v.push(secure(&os[0], vec![late0], true, "governance_rtps_N", "T_E_E", 13));
+    v.push(secure(&os[os.len() - 1], vec![], false, "governance_rtps_EO", "T_N_N", 10));
+    v.push(secure(&os[os.len() / 2], vec![], true, "governance_rtps_S", "T_SO_S", 1501));
+    v.push(secure(&os[3], vec![], true, "governance_max", "T_EO_E", 10));
   }
   v
 }
@@ -263,6 +306,33 @@ fn want_value(id: i32, seq: i32, size: usize) -> Got {
   Got::Value(id, seq, b.len(), b.iter().fold(0u8, |a, x| a.wrapping_mul(7).wrapping_add(*x)))
 }
 
+#[cfg(feature = "security")]
+fn participant(domain: u16, n: u8, secure: Option<&str>) -> Result<DomainParticipant, String> {
+  use rustdds::DomainParticipantBuilder;
+  match secure {
+    None => DomainParticipant::new(domain).map_err(|x| format!("MACHINERY {x:?}")),
+    Some(gov) => {
+      let root = std::env::var("VERIF_ROOT").unwrap_or_else(|_| "/verif".into());
+      let fx = |rel: &str| std::path::PathBuf::from(format!("{root}/fixtures/sec/{rel}"));
+      // (PrivateSigningKey is not exported: start from the directory form and point the shared files elsewhere)
+      let mut conf = rustdds::DomainParticipantSecurityConfigFiles::with_ros_default_names(fx(&format!("p{n}")), String::new());
+      conf.identity_ca_certificate = fx("identity_ca.cert.pem");
+      conf.permissions_ca_certificate = fx("permissions_ca.cert.pem");
+      conf.domain_governance_document = fx(&format!("{gov}.p7s"));
+      conf.participant_permissions_document = fx("permissions.p7s");
+      DomainParticipantBuilder::new(domain).builtin_security(conf).build().map_err(|x| format!("MACHINERY secure participant: {x:?}"))
+    }
+  }
+}
+
+#[cfg(not(feature = "security"))]
+fn participant(domain: u16, _n: u8, secure: Option<&str>) -> Result<DomainParticipant, String> {
+  if secure.is_some() {
+    return Err("MACHINERY: a security scenario reached the binary built without the security feature".into());
+  }
+  DomainParticipant::new(domain).map_err(|x| format!("MACHINERY {x:?}"))
+}
+
 /// Runs one scenario in this process. Ok(None): held; Ok(Some((key, message))): the property is violated.
 pub fn run_scenario(sc: &Scenario, domain: u16) -> Result<Option<(String, String)>, String> {
   if let Some((m, j)) = sc.loss {
@@ -290,10 +360,10 @@ pub fn run_scenario(sc: &Scenario, domain: u16) -> Result<Option<(String, String
       last_settle_end = Some(Instant::now());
     }
     match st {
-      Step::P1 => dp1 = Some(DomainParticipant::new(domain).map_err(|x| e(&x))?),
-      Step::P2 => dp2 = Some(DomainParticipant::new(domain).map_err(|x| e(&x))?),
-      Step::T1 => t1 = Some(dp1.as_ref().unwrap().create_topic("c07_t".into(), "Msg".into(), &qos, kind).map_err(|x| e(&x))?),
-      Step::T2 => t2 = Some(dp2.as_ref().unwrap().create_topic("c07_t".into(), "Msg".into(), &qos, kind).map_err(|x| e(&x))?),
+      Step::P1 => dp1 = Some(participant(domain, 1, sc.secure.as_deref())?),
+      Step::P2 => dp2 = Some(participant(domain, 2, sc.secure.as_deref())?),
+      Step::T1 => t1 = Some(dp1.as_ref().unwrap().create_topic(sc.topic.clone(), "Msg".into(), &qos, kind).map_err(|x| e(&x))?),
+      Step::T2 => t2 = Some(dp2.as_ref().unwrap().create_topic(sc.topic.clone(), "Msg".into(), &qos, kind).map_err(|x| e(&x))?),
       Step::W => {
         let p = dp1.as_ref().unwrap().create_publisher(&qos).map_err(|x| e(&x))?;
         w = Some(if sc.with_key {
@@ -405,7 +475,7 @@ pub fn run_scenario(sc: &Scenario, domain: u16) -> Result<Option<(String, String
   // 3. deletion is observed by the peer as an unmatch
   match sc.delete {
     Delete::None => {}
-    Delete::Reader | Delete::ReaderParticipant => {
+    Delete::Reader | Delete::ReaderParticipant | Delete::ReaderThenNewWriter => {
       drop(r);
       if sc.delete == Delete::ReaderParticipant {
         drop(subscriber.take());
@@ -421,8 +491,28 @@ pub fn run_scenario(sc: &Scenario, domain: u16) -> Result<Option<(String, String
       if c > -1 {
         return Ok(Some((format!("C07:unmatch-not-observed:{:?}", sc.delete), format!("{} s after the deletion the writer has seen no unmatch", DEADLINE.as_secs()))));
       }
+      if sc.delete == Delete::ReaderThenNewWriter {
+        let p = publisher.as_ref().unwrap();
+        let w2 = if sc.with_key {
+          AnyWriter::K(p.create_datawriter::<Msg, rustdds::CDRSerializerAdapter<Msg>>(t1.as_ref().unwrap(), None).map_err(|x| e(&x))?)
+        } else {
+          AnyWriter::N(p.create_datawriter_no_key::<Msg, rustdds::CDRSerializerAdapter<Msg>>(t1.as_ref().unwrap(), None).map_err(|x| e(&x))?)
+        };
+        let s = Instant::now();
+        let mut c2 = 0;
+        while s.elapsed() < Duration::from_secs(4) {
+          c2 += w2.matched_change();
+          std::thread::sleep(Duration::from_millis(20));
+        }
+        if c2 != 0 {
+          return Ok(Some((
+            "C07:matched-with-deleted-endpoint:reader".into(),
+            format!("a writer created after the only reader of the topic had been deleted (and the deletion observed) reports a match (current count {c2})"),
+          )));
+        }
+      }
     }
-    Delete::Writer => {
+    Delete::Writer | Delete::WriterThenNewReader => {
       drop(w);
       let s = Instant::now();
       let mut c = 0;
@@ -434,6 +524,22 @@ pub fn run_scenario(sc: &Scenario, domain: u16) -> Result<Option<(String, String
       }
       if c > -1 {
         return Ok(Some(("C07:unmatch-not-observed:Writer".into(), format!("{} s after the deletion the reader has seen no unmatch", DEADLINE.as_secs()))));
+      }
+      if sc.delete == Delete::WriterThenNewReader && sc.with_key {
+        let sub = subscriber.as_ref().unwrap();
+        let r2 = AnyReader::K(sub.create_datareader::<Msg, rustdds::CDRDeserializerAdapter<Msg>>(t2.as_ref().unwrap(), None).map_err(|x| e(&x))?);
+        let s = Instant::now();
+        let mut c2 = 0;
+        while s.elapsed() < Duration::from_secs(4) {
+          c2 += r2.matched_change();
+          std::thread::sleep(Duration::from_millis(20));
+        }
+        if c2 != 0 {
+          return Ok(Some((
+            "C07:matched-with-deleted-endpoint:writer".into(),
+            format!("a reader created after the only writer of the topic had been deleted (and the deletion observed) reports a match (current count {c2})"),
+          )));
+        }
       }
     }
   }
@@ -456,8 +562,16 @@ pub fn one(tier: &str, idx: usize) -> i32 {
   0
 }
 
-fn spawn_one(tier: &str, idx: usize, domain: u16, timeout: Duration) -> Value {
-  let exe = std::env::current_exe().expect("current_exe");
+fn spawn_one(tier: &str, idx: usize, domain: u16, timeout: Duration, secure: bool) -> Value {
+  let mut exe = std::env::current_exe().expect("current_exe");
+  if secure && !cfg!(feature = "security") {
+    // the sibling binary built with --features security (./check builds both for C07)
+    let root = std::env::var("VERIF_ROOT").unwrap_or_else(|_| "/verif".into());
+    exe = std::path::PathBuf::from(format!("{root}/harness/target-sec/debug/mc"));
+    if !exe.exists() {
+      return json!({"machinery": format!("{} is missing (run ./check --setup)", exe.display())});
+    }
+  }
   let mut child = Command::new(exe)
     .args(["C07", "--tier", tier, "--shard", &format!("{idx}..{}", idx + 1), "--one", &idx.to_string()])
     .env("VERIF_C07_DOMAIN", domain.to_string())
@@ -515,13 +629,15 @@ pub fn run(tier: &str) -> i32 {
         if i >= scs.len() {
           break;
         }
-        let domain = base_domain + slot as u16;
-        let mut v = spawn_one(tier, i, domain, Duration::from_secs(150));
+        let sec = scs[i].secure.is_some();
+        // (the fixture governance and permissions documents cover domains 0..100)
+        let domain = if sec { 40 + slot as u16 } else { base_domain + slot as u16 };
+        let mut v = spawn_one(tier, i, domain, Duration::from_secs(150), sec);
         let mut rerun = false;
         if v["held"] != json!(true) {
           // once more, to tell a property violation from an overloaded machine: reported only if it fails again
           rerun = true;
-          let v2 = spawn_one(tier, i, domain + 16, Duration::from_secs(150));
+          let v2 = spawn_one(tier, i, domain + 16, Duration::from_secs(150), sec);
           if v2["held"] == json!(true) {
             v = json!({"held": true, "unreproduced": v});
           } else {
@@ -533,13 +649,14 @@ pub fn run(tier: &str) -> i32 {
     }
   });
   let results = results.into_inner().unwrap();
-  let (mut held, mut unrepro, mut reruns) = (0u64, 0u64, 0u64);
+  let (mut held, mut unrepro, mut reruns, mut secure_n) = (0u64, 0u64, 0u64, 0u64);
   let mut classes = std::collections::BTreeSet::new();
   for (i, r) in results.iter().enumerate() {
     let (v, rerun) = r.clone().unwrap_or((json!({"machinery": "not run"}), false));
     reruns += u64::from(rerun);
     let sc = &scs[i];
-    classes.insert(format!("{:?}{:?}{}{}{:?}", sc.order, sc.settle_before, sc.transient_local, sc.with_key, sc.delete));
+    classes.insert(format!("{:?}{:?}{}{}{:?}{:?}{}", sc.order, sc.settle_before, sc.transient_local, sc.with_key, sc.delete, sc.secure, sc.topic));
+    secure_n += u64::from(sc.secure.is_some());
     if v["held"] == json!(true) {
       held += 1;
       if v.get("unreproduced").is_some() {
@@ -559,19 +676,20 @@ pub fn run(tier: &str) -> i32 {
   rep.set("evaluations", json!(scs.len()));
   rep.set("scenarios", json!(scs.len()));
   rep.set("scenarios_held", json!(held));
+  rep.set("scenarios_with_security_enabled", json!(secure_n));
   rep.set("scenarios_repeated", json!(reruns));
   rep.set("failed_once_then_passed", json!(unrepro));
   rep.set("creation_orders", json!(orders().len()));
   rep.set("distinct_nontrivial", json!(classes.len()));
   rep.set("exhaustive", json!(true));
-  rep.set("rule", json!("all 35 interleavings of P1<topic<writer<first writes and P2<topic<reader; quick: each with a 4 s pause before the later endpoint creation, durability alternating, plus deletion of reader / writer / the reader's participant, a no_key, a fragmented and a lossy scenario; thorough: x {Volatile, TransientLocal} x pause at no / every single position / before both endpoint creations, and on the orders that start P1,P2: payload sizes on both sides of the 1024-byte fragment limit in every residue mod 4 and 5000 bytes, no_key, deterministic loss (datagram k dropped when splitmix64(k, pattern) mod m = 0, six (m, pattern)), the three deletions. After the steps both sides must report the match within 30 s, a second batch (three values and one instance disposal) is written, and the reader must take exactly the acceptable sequence (TransientLocal: everything; Volatile late joiner: nothing of the first batch) within 30 s and nothing more; deletions must be observed as an unmatch within 30 s"));
+  rep.set("rule", json!("all 35 interleavings of P1<topic<writer<first writes and P2<topic<reader; quick: each with a 4 s pause before the later endpoint creation, durability alternating, plus deletion of reader / writer / the reader's participant, a no_key, a fragmented and a lossy scenario; thorough: x {Volatile, TransientLocal} x pause at no / every single position / before both endpoint creations, and on the orders that start P1,P2: payload sizes on both sides of the 1024-byte fragment limit in every residue mod 4 and 5000 bytes, no_key, deterministic loss (datagram k dropped when splitmix64(k, pattern) mod m = 0, six (m, pattern)), the five deletion scenarios (reader, writer, the reader's participant; reader then a new writer, writer then a new reader, which must find nothing to match); security enabled: 4 scenarios in quick, 66 in thorough (6 governance documents x 11 topics of all metadata x data protection kinds, payload sizes 10 / 13 / 1501 bytes, three orders). After the steps both sides must report the match within 30 s, a second batch (three values and one instance disposal) is written, and the reader must take exactly the acceptable sequence (TransientLocal: everything; Volatile late joiner: nothing of the first batch) within 30 s and nothing more; deletions must be observed as an unmatch within 30 s"));
   rep.push_sample(json!(scs[0]));
   rep.push_sample(json!(scs[scs.len() / 2]));
   rep.assumptions = vec![
     "Public API only, real threads and sockets: the interleaving of each participant's event-loop and discovery threads within a scenario is the operating system's, not enumerated. A failing scenario is repeated once in a fresh process and reported only if it fails again".into(),
     "Deadlines of 30 s per expectation (typical: under 2 s)".into(),
     "Loss is deterministic and aperiodic (datagram k dropped when a fixed hash of (k, pattern) is 0 mod m, rates 1/3 .. 1/7) through the network seam; strictly periodic patterns are not used because they can lock onto the protocol's own period and starve one message kind for ever, which is not loss at a rate".into(),
-    "Security-enabled participants are not part of this check (C16/C17/C19 drive the secure pipeline)".into(),
+    "Security-enabled scenarios use the signed fixture documents (identities p1/p2, permissions allowing everything, governance per RTPS protection kind with topic rules T_<metadata>_<data>); authentication, key exchange and protection are the real ones over the network; they run in the binary built with cargo feature security".into(),
   ];
   rep.finish()
 }
